@@ -193,7 +193,12 @@ def validate_shards(trace_module, cfg, shard_paths, wd, jobs=12, timeout=1800):
         for payload in tlc_lines(res["out_path"], "MISMATCH"):
             # payload: <line>, "<json>"
             i = payload.index(",")
-            mism.append(json.loads(parse_tla_string(payload[i + 1:].strip())))
+            m = json.loads(parse_tla_string(payload[i + 1:].strip()))
+            if isinstance(m, dict) and "why" in m and "ev" in m:
+                ev = m["ev"]
+                ev["why"] = m["why"]
+                m = ev
+            mism.append(m)
         os.remove(res["out_path"])
         return res["distinct"] - 1, mism
     total, all_m = 0, []
@@ -318,7 +323,7 @@ def replay_cases(ver, binp, tlc_out, wd, stage, kind="CASE"):
     return summ
 
 
-def validate_traces(ver, binp, family, trace_module, wd, stage="trace", jobs=12, gen_args=None):
+def validate_traces(ver, binp, family, trace_module, wd, stage="trace", jobs=12, gen_args=None, only_why=None):
     """I->S: have the harness record traces, validate every shard with TLC, classify mismatches."""
     t0 = time.time()
     tdir = os.path.join(wd, stage)
@@ -329,8 +334,15 @@ def validate_traces(ver, binp, family, trace_module, wd, stage="trace", jobs=12,
     n, mism = validate_shards(trace_module, trace_module + ".cfg", shards, wd, jobs=jobs)
     if n != summ["events"]:
         raise ToolError(f"{stage}: {summ['events']} events recorded but {n} validated")
+    if any(m.get("why") == "HARNESS" for m in mism):
+        raise ToolError(f"{stage}: the harness produced an inconsistent event: " + json.dumps([m for m in mism if m.get("why") == "HARNESS"][0])[:600])
+    if only_why is not None:
+        other = [m for m in mism if m.get("why") not in only_why]
+        for w in sorted({m.get("why") for m in other}):
+            ver.notes.append(f"{stage}: {sum(1 for m in other if m.get('why') == w)} events fail conjunct '{w}', which belongs to another property's check")
+        mism = [m for m in mism if m.get("why") in only_why]
     for m in mism:
-        ver.mismatch("I->S " + stage, m)
+        ver.mismatch("I->S " + stage, m, sigtext=(f"{m.get('fam')}:{m.get('name')}:{m.get('ty', '')}:{m.get('why')}" if "why" in m else None))
     ver.cov["traces_validated_against_impl"] += n
     ver.cov["evaluations"] += n
     ver.cov["distinct_nontrivial"] += summ.get("distinct_inputs", 0)
